@@ -2,7 +2,8 @@
    Property theorems only; proofs live in Proofs/C03Proof.v, Layout/SpecTheory.v. *)
 From Coq Require Import List NArith String Bool.
 From Coq.Strings Require Import Byte.
-From Peppi Require Import Base.Bytes Layout.Syntax Gen.Funs Layout.Sem Layout.SpecTheory Layout.Spec Gen.Tables Layout.Rows Proofs.C03Proof.
+From Peppi Require Import Base.Bytes Base.Outcome Layout.Syntax Gen.Funs Layout.Sem Layout.SpecTheory Layout.Spec Gen.Tables Layout.Rows Proofs.C03Proof
+  Model.Start Model.Parse Model.Reader Model.Writer Model.Recorder Model.View Proofs.C04Proof Proofs.C13Proof Proofs.C03Parsed.
 Import ListNotations.
 
 (* For every frame-level event E, every version v, every payload that the generated reader (as regenerated
@@ -32,7 +33,34 @@ Theorem C03_total : forall E v payload,
   (exists r, dec (leaves_at v (read_leaves E)) payload = Some r) <-> (tsize (leaves_at v (read_leaves E)) <= length payload)%nat.
 Proof. exact c03_total. Qed.
 
+(* end to end, in the game parsed from EVERY well-formed file: for every frame occurrence i, every present character's
+   pre / post record, the frame start / end records and every item, each spec field the version has is the big-endian
+   value of the bytes at the field's spec offset in that event of that occurrence (rows never mix between frames,
+   characters or items) *)
+Theorem C03_parsed_fields : forall r st h i f,
+  wf_replay r = true -> game_start (r_start r) = ROk st -> nth_error (r_frames r) i = Some f ->
+  exists g w, slp_read {| o_skip := false; o_hash := h |} (emit r) = Ok (g, []) /\ frame_view (r_ver r) (g_frames g) i = Ok w /\
+    (forall k p q, slot_at k f = Some (p, q) ->
+       exists tag cv, nth_error (slots_of (port_occupancy st)) k = Some tag /\
+         nth_error (fv_chars w) k = Some (fst tag, snd tag, cv) /\
+         (forall j s, nth_error (spec_of "Pre") j = Some s -> osince_ok (r_ver r) (ssince s) = true ->
+            nth_error (cv_pre cv) j = Some (be_dec (firstn (width (sprim s)) (skipn (soff s - hdr_of "Pre") p)))) /\
+         (forall j s, nth_error (spec_of "Post") j = Some s -> osince_ok (r_ver r) (ssince s) = true ->
+            nth_error (cv_post cv) j = Some (be_dec (firstn (width (sprim s)) (skipn (soff s - hdr_of "Post") q))))) /\
+    (vgte (r_ver r) 2 2 = true -> exists sv, fv_start w = Some sv /\
+       forall j s, nth_error (spec_of "Start") j = Some s -> osince_ok (r_ver r) (ssince s) = true ->
+         nth_error sv j = Some (be_dec (firstn (width (sprim s)) (skipn (soff s - hdr_of "Start") (af_start f))))) /\
+    (vgte (r_ver r) 3 0 = true -> exists ev, fv_end w = Some ev /\
+       forall j s, nth_error (spec_of "End") j = Some s -> osince_ok (r_ver r) (ssince s) = true ->
+         nth_error ev j = Some (be_dec (firstn (width (sprim s)) (skipn (soff s - hdr_of "End") (af_end f))))) /\
+    (vgte (r_ver r) 3 0 = true -> exists its, fv_items w = Some its /\ List.length its = List.length (af_items f) /\
+       forall m it iv, nth_error (af_items f) m = Some it -> nth_error its m = Some iv ->
+       forall j s, nth_error (spec_of "Item") j = Some s -> osince_ok (r_ver r) (ssince s) = true ->
+         nth_error iv j = Some (be_dec (firstn (width (sprim s)) (skipn (soff s - hdr_of "Item") it)))).
+Proof. intros r st h i f Hwf Hst Hi. exact (c03_parsed_fields r st Hwf Hst h i f Hi). Qed.
+
 Print Assumptions C03_fields.
 Print Assumptions C03_no_other_fields.
 Print Assumptions C03_since_is_lex.
 Print Assumptions C03_total.
+Print Assumptions C03_parsed_fields.
